@@ -171,3 +171,52 @@ PROPS["C11"] = {
              "25% three objects out of a generated history. Non-trivial = the pair differs in exactly one component, or is equal without being the independent arm; distinct by case"),
     "assumptions": [],
 }
+
+PROPS["C16"] = {
+    "level": "exploration",
+    "technique": "property-based testing (rapidcheck) + bounded exhaustive enumeration: reference models for escape/unescape, round trip, guard-page buffers of the documented sizes",
+    "level_text": ("uriEscape(Ex) output is compared with a model written from the documentation, its alphabet and the 3n/6n bound are enforced by an output buffer of exactly that size "
+                   "flush against a PROT_NONE page (input read-only), the returned pointer must be the terminator and unescaping restores the input (breaks -> CRLF when normalised). "
+                   "uriUnescapeInPlace(Ex) on arbitrary strings runs in a buffer of exactly n+1 characters and is compared with a two-phase model (decode triplets, then convert encoded breaks) "
+                   "for all 2x4 option combinations; both character types; all strings up to length 5/6 over 13 critical characters are enumerated."),
+    "level_note": "Trusted: the models, the MMU. With unencoded CR/LF in the input and a converting break mode only safety, length and the non-break characters are judged (the statement is silent there); counted as relaxed.",
+    "enumerate": {"strings": "all strings of length <= 5 (quick) / <= 6 (thorough) over {% 4 1 a A g + space CR LF 0xff D 0} x all 2x2 escape and 2x4 unescape options"},
+    "quick": {"cases": 60000},
+    "thorough": {"cases": 1500000, "ceiling_s": 3000},
+    "rule": ("G_text over 1..255 built from chunks (%, %4, %41, %4G, %%41, %0D%0A, +, space, CR, LF, CRLF, 0x7f, 0x80, 0xff ...) with truncated triplets over-weighted at the very end; "
+             "both entry points of each function; non-trivial = contains a character that must be escaped, a well-formed triplet or a malformed '%' and has length >= 2; distinct by text"),
+    "assumptions": ["code points above 255 are outside the statement"],
+}
+
+PROPS["C17"] = {
+    "level": "exploration",
+    "technique": "property-based testing (rapidcheck) with exhaustive capacity enumeration per list, guard-page buffers, compose/dissect round trip against a model, and near-INT_MAX size arithmetic via a shared 716 MB buffer",
+    "level_text": ("For generated key/value lists the required-size figure is compared with the documented worst case, composing is tried with EVERY capacity from -1 to R+2 into a buffer of exactly "
+                   "that size flush against a PROT_NONE page (any success must report length+1 <= capacity and the model text; any failure must be the too-large code), the composed text must be "
+                   "legal in a query (class check and grammar automaton), the malloc variants give the same text, and dissecting with matching options returns the expected list, NULL vs empty "
+                   "preserved, empty-key-no-value items gone, count correct; all blocks go back through the manager. A 'huge' class builds 1-4 items of lengths around INT_MAX/6 and INT_MAX/3 "
+                   "from one shared buffer: sums beyond INT_MAX must be refused, with UBSan watching the arithmetic."),
+    "level_note": "Trusted: models of compose/dissect, the MMU, UBSan. The destination content after a too-large failure is not judged (the statement does not say).",
+    "quick": {"cases": 25000},
+    "thorough": {"cases": 120000, "ceiling_s": 3000},
+    "rule": ("lists of 1-6 items, keys/values over 1..255 from chunks (%, %41, +, space, CR, LF, CRLF, &, =, ==, #, 0x80 ...), value NULL in 1/4, empty key in 1/6; both flags, four break modes, "
+             "both managers, itemCount NULL in 1/3, plain API in 1/4; 1/40 of the cases are 'huge'. Non-trivial = >= 2 items, at least one NULL/empty value or empty key or a character that "
+             "needs escaping, and a capacity strictly inside (0, R]; or a huge list; distinct by case"),
+    "assumptions": ["lists with embedded NUL cannot be expressed through the API"],
+}
+
+PROPS["C18"] = {
+    "level": "exploration",
+    "technique": "property-based testing (rapidcheck) + bounded exhaustive enumeration: filename -> URI string -> filename round trip with form check against the grammar automaton and guard-page buffers of the documented sizes",
+    "level_text": ("Unix names (any string over 1..255) and Windows names constructed in exactly the three classes the statement names (drive-absolute, UNC with non-empty server, relative; "
+                   "backslashes only) are converted to URI strings in buffers of exactly 7+3n+1 / 8+3n+1 / 3n+1 characters flush against a guard page; the result must be a valid URI reference of the "
+                   "stated form and convert back, in a buffer of exactly the documented length, to the original name; the short forms file:/x and file:c:/x are derived and must give the same name. "
+                   "All names up to length 6/7 over {a C : \\\\ / space % .} are enumerated in every class they belong to."),
+    "level_note": "Trusted: the grammar automaton, the MMU. Names outside the statement's classes (drive-relative 'X:rest', non-letter drives, Windows names containing '/') are not generated.",
+    "enumerate": {"names": "all names of length <= 6 (quick) / <= 7 (thorough) over {a C : \\ / space % .}, each in every class whose definition it meets"},
+    "quick": {"cases": 60000},
+    "thorough": {"cases": 1500000, "ceiling_s": 3000},
+    "rule": ("classes: unix absolute 25%, unix relative 17%, windows drive 25%, windows UNC 17%, windows relative 17%; segments from chunks incl. space % : # ? 0x7f 0x80 0xff; "
+             "non-trivial = the name contains a character that needs escaping or >= 2 separators; distinct by (class, name)"),
+    "assumptions": ["'file:/x' is only a short form while the name does not itself start with '//'"],
+}
